@@ -458,7 +458,13 @@ def extract_docstring(node: Str) -> Tuple[int, str]:
         # TODO: remove me when python3.7 is not supported
         value = node.s
     lineno = extract_docstring_linenum(node)
-    return lineno, inspect.cleandoc(value)
+    doc = inspect.cleandoc(value)
+    # cleandoc() only drops leading lines that are empty once dedented: a leading line made of
+    # more whitespace than the margin survives, while the line number computed above skips it.
+    # Drop such lines as well, so that the first line of the text is the line 'lineno' points at.
+    while '\n' in doc and doc[:doc.index('\n')].isspace():
+        doc = doc[doc.index('\n') + 1:]
+    return lineno, doc
 
 
 def infer_type(expr: ast.expr) -> Optional[ast.expr]:
